@@ -147,6 +147,19 @@ int main()
       ccs.push_back(&lex.get_calling_convention(wd));
    }
    links.push_back(&lex.c_linkage()); links.push_back(&lex.cxx_linkage()); ccs.push_back(&impl::cxx_transfer().convention());
+   // values a client builds itself around EQUAL but DISTINCT Logogram objects: another Lexicon's logogram for the very same String node,
+   // and by-value copies of the values above
+   static impl::Lexicon other;
+   static std::vector<ipr::Calling_convention> own_ccs; static std::vector<ipr::Linkage> own_links;
+   own_ccs.reserve(64); own_links.reserve(64);
+   for (auto& wd : words) {
+      auto& shared_string = lex.get_string(wd);
+      auto& their_logogram = other.get_logogram(shared_string);
+      logos.push_back(&their_logogram);
+      own_ccs.emplace_back(their_logogram); ccs.push_back(&own_ccs.back());
+      own_links.emplace_back(their_logogram); links.push_back(&own_links.back());
+   }
+   for (std::size_t i = 0; i < 4; ++i) { own_ccs.push_back(*ccs[i]); ccs.push_back(&own_ccs.back()); own_links.push_back(*links[i]); links.push_back(&own_links.back()); }
    auto spell = [](const ipr::Logogram& l) { auto v = l.what().characters(); return std::string((const char*) v.data(), v.size()); };
    for (auto a : logos) for (auto b : logos)
       out("Logogram::==", spell(*a) + "|" + spell(*b), (*a == *b) == (spell(*a) == spell(*b)) and (*a != *b) == not (*a == *b));
